@@ -470,5 +470,247 @@ Lemma flat_header ft ti body : length ft = 10%nat -> length ti = 20%nat ->
   /\ getw ws 0 = 40 /\ getw ws 11 = 40 /\ getw ws 12 = 80 /\ getw ws 33 = 80
   /\ skipn 34 ws = body /\ lenZ ws = 34 + lenZ body.
 Proof.
-  intros L1 L2. explode L1. explode L2. unfold lenZ. simpl. repeat split; try reflexivity. lia.
+  intros L1 L2. explode L1. explode L2. cbv zeta. repeat split; try reflexivity.
+  unfold lenZ. cbn [app length]. lia.
+Qed.
+
+Lemma wf_unpack T D f : wf T D f = true ->
+  exists b0 rest0 ts,
+    f_times f = (b0 :: rest0) :: ts /\ wf_shape f = true
+    /\ forallb (fun tb => list_eqb meta_eqb tb (b0 :: rest0)) (f_times f) = true
+    /\ forallb (fun b => zlist_eqb (b_model b) (b_model b0)) (b0 :: rest0) = true
+    /\ forallb (fun tb => forallb (fun b => zlist_eqb (b_tau b) (b_tau (hd_block tb))) tb) (f_times f) = true
+    /\ existsb (id_eqb b0) rest0 = false
+    /\ nodup_keys (map (entry_of T D) (b0 :: rest0)) = true
+    /\ forallb (fun b => b_nz b <=? max_layers) (b0 :: rest0) = true.
+Proof.
+  unfold wf. intros H. apply andb_true_iff in H as [Hs H].
+  destruct (f_times f) as [|[|b0 rest0] ts] eqn:E; try discriminate.
+  apply andb_true_iff in H as [H H6]. apply andb_true_iff in H as [H H5]. apply andb_true_iff in H as [H H4].
+  apply andb_true_iff in H as [H H3]. apply andb_true_iff in H as [H H2]. apply negb_true_iff in H4.
+  exists b0, rest0, ts. repeat split; assumption.
+Qed.
+
+Lemma forallb_concat {A} (p : A -> bool) ls : forallb p (concat ls) = forallb (forallb p) ls.
+Proof. induction ls as [|l ls IH]; simpl; [reflexivity|]. rewrite forallb_app, IH. reflexivity. Qed.
+
+Lemma tbw_len_ge bs : forallb wf_block bs = true -> lenZ bs <= lenZ (tbw bs).
+Proof.
+  induction bs as [|b bs IH]; intros H; [unfold lenZ; simpl; lia|].
+  simpl in H. apply andb_true_iff in H as [Hb Hbs]. specialize (IH Hbs).
+  rewrite <- (app_nil_r (tbw (b :: bs))), tbw_cons, app_nil_r, lenZ_app, (lenZ_blockw b Hb).
+  pose proof (lenZ_nonneg (b_data b)). unfold lenZ in *. simpl length. lia.
+Qed.
+
+Lemma tbw_first_ge b bs : wf_block b = true -> 57 <= lenZ (tbw (b :: bs)).
+Proof.
+  intros Hb. rewrite <- (app_nil_r (tbw (b :: bs))), tbw_cons, app_nil_r, lenZ_app, (lenZ_blockw b Hb).
+  pose proof (lenZ_nonneg (b_data b)). pose proof (lenZ_nonneg (tbw bs)). lia.
+Qed.
+
+Lemma same_ids_meta : forall t0 tb, list_eqb meta_eqb tb t0 = true ->
+  same_ids (map pblock_of t0) (map pblock_of tb) = true.
+Proof.
+  intros t0 tb. revert t0. induction tb as [|b tb IH]; intros [|b' t0] H; simpl in H; try discriminate; [reflexivity|].
+  apply andb_true_iff in H as [H1 H2]. destruct (meta_eqb_true _ _ H1) as (_ & Hc & Hi & _).
+  unfold same_ids. cbn [map list_eqb pblock_of q_hdr hdr_of p_cat p_tid].
+  rewrite Hc, Hi, zlist_eqb_refl, Z.eqb_refl. cbn [andb]. apply IH. exact H2.
+Qed.
+
+Lemma markers_ok tb : forallb (fun q => q_m0 q =? q_m2 q) (map pblock_of tb) = true.
+Proof. induction tb as [|b tb IH]; [reflexivity|]. cbn [map forallb pblock_of q_m0 q_m2]. rewrite Z.eqb_refl. exact IH. Qed.
+
+Lemma layers_ok t0 : forallb (fun b => b_nz b <=? max_layers) t0 = true ->
+  existsb (fun q => max_layers <? p_nz (q_hdr q)) (map pblock_of t0) = false.
+Proof.
+  induction t0 as [|b t0 IH]; intros H; [reflexivity|]. simpl in H. apply andb_true_iff in H as [H1 H2].
+  cbn [map existsb pblock_of q_hdr hdr_of p_nz]. rewrite (IH H2).
+  apply Z.leb_le in H1. replace (max_layers <? b_nz b) with false by (symmetry; apply Z.ltb_ge; exact H1). reflexivity.
+Qed.
+
+Lemma var_of_hdr_block T D b : tables_ok T D = true -> var_of_hdr T D (hdr_of b) = var_of T D b.
+Proof.
+  intros Hok. unfold var_of_hdr, var_of, hdr_of. cbn [p_cat p_tid p_unit p_resv p_nx p_ny p_nz p_start].
+  rewrite (impl_lookup_spec _ _ _ _ _ Hok). reflexivity.
+Qed.
+
+Lemma tau_of_pblocks tb : p_tau (hd_pblock (map pblock_of tb)) = b_tau (hd_block tb).
+Proof. destruct tb as [|b tb]; reflexivity. Qed.
+
+(* ---- the reader model presents exactly the content ------------------------------------------------- *)
+Theorem read_enc T D f : wf T D f = true -> tables_ok T D = true -> one_by_two f = false ->
+  impl_open T D (enc f) (4 * lenZ (enc f)) = Ok (view_of T D f).
+Proof.
+  intros Hwf Hok Hdef.
+  destruct (wf_unpack T D f Hwf) as (b0 & rest0 & ts & Et & Hs & Hmeta & Hmodel & Htau & Hid & Hnd & Hnz).
+  destruct (shape_lens f Hs) as (L1 & L2 & Hb).
+  rewrite (enc_flat f Hs). unfold flat.
+  destruct (flat_header (f_ftype f) (f_title f) (bodyw f) L1 L2) as (F1 & F2 & F3 & F4 & F5 & F6 & F7 & F8).
+  set (ws := [40] ++ f_ftype f ++ [40; 80] ++ f_title f ++ [80] ++ bodyw f) in *.
+  destruct consts as (C1 & C2 & C3 & C4 & _ & _ & _ & _ & _ & _ & _ & _ & _ & G0 & G1 & G2 & G3 & G4 & G5).
+  destruct writer_layout as (_ & _ & _ & _ & _ & _ & _ & _ & _ & _ & _ & W1 & W2).
+  unfold impl_open. rewrite W1, W2, C2, C4, G0, G1, G2, G3, G4, G5, F1, F2, F3, F4, F5, F6, F7, F8.
+  assert (Hall : Forall (fun tb => list_eqb meta_eqb tb (b0 :: rest0) = true /\ forallb wf_block tb = true) (f_times f)).
+  { rewrite forallb_concat in Hb. rewrite forallb_forall in Hmeta, Hb. apply Forall_forall. intros tb Hin. split; auto. }
+  pose proof (proj1 (Forall_forall _ _) Hall) as HallF.
+  assert (Hwf0 : forallb wf_block (b0 :: rest0) = true).
+  { rewrite Et in Hall. inversion Hall as [|? ? [_ H0] _]. exact H0. }
+  pose proof Hwf0 as Hwf0'. simpl in Hwf0'. apply andb_true_iff in Hwf0' as [Hb0 Hr0].
+  set (es := map (entry_of T D) (b0 :: rest0)) in *.
+  assert (Hlen : Forall (fun tb => lenZ (tbw tb) = tszZ es) (f_times f)).
+  { eapply Forall_impl; [|exact Hall]. intros tb [H1 H2]. apply (parse_time_tbw T D _ _ H1 H2). }
+  assert (Hbody : bodyw f = tbw (b0 :: rest0) ++ concat (map tbw ts)).
+  { unfold bodyw. rewrite Et. reflexivity. }
+  assert (Htail : concat (map tbw ts) = [] \/ repeat_tail b0 (concat (map tbw ts))).
+  { destruct ts as [|t1 ts']; [left; reflexivity|right].
+    rewrite Et in Hall. inversion Hall as [|? ? _ Hall1]. inversion Hall1 as [|? ? [Hm1 Hw1] Hall2]. subst.
+    destruct t1 as [|b1 r1]; [discriminate|]. simpl in Hm1. apply andb_true_iff in Hm1 as [Hmb Hmr].
+    simpl in Hw1. apply andb_true_iff in Hw1 as [Hwb1 Hwr1].
+    destruct (meta_eqb_true _ _ Hmb) as (_ & Hc & Hi & _).
+    exists b1, (tbw r1 ++ concat (map tbw ts')). repeat split; try assumption.
+    - cbn [map concat]. rewrite tbw_cons. reflexivity.
+    - intros E. destruct (tbw_app_nil r1 _ Hwr1 E) as [-> E2].
+      destruct rest0; [|discriminate].
+      destruct ts' as [|t2 ts'']; [unfold one_by_two in Hdef; rewrite Et in Hdef; discriminate|].
+      inversion Hall2 as [|? ? [Hm2 Hw2] _]. subst. destruct t2 as [|b2 r2]; [discriminate|].
+      cbn [map concat] in E2. rewrite tbw_cons in E2. simpl in Hw2. apply andb_true_iff in Hw2 as [Hw2 _].
+      pose proof (blockw_nonnil b2 (tbw r2 ++ concat (map tbw ts'')) Hw2) as P.
+      rewrite ?app_assoc in P, E2. rewrite E2 in P. unfold lenZ in P. simpl in P. clear - P. lia. }
+  assert (Hpos : 0 < tszZ es).
+  { pose proof Hlen as Hl0. rewrite Et in Hl0. inversion Hl0 as [|? ? H0 _]. rewrite <- H0.
+    rewrite <- (app_nil_r (tbw (b0 :: rest0))), tbw_cons. apply (blockw_nonnil b0 _ Hb0). }
+  assert (Hbl : lenZ (bodyw f) = lenZ (f_times f) * tszZ es) by (apply body_len; exact Hlen).
+  assert (Hnt : 0 < lenZ (f_times f)) by (rewrite Et; unfold lenZ; simpl length; clear; lia).
+  replace (4 * (34 + lenZ (bodyw f)) <? 356) with false.
+  2:{ symmetry. apply Z.ltb_ge. rewrite Hbl.
+      assert (57 <= tszZ es).
+      { pose proof Hlen as Hl0. rewrite Et in Hl0. inversion Hl0 as [|? ? H0 _]. rewrite <- H0. apply tbw_first_ge. exact Hb0. }
+      clear - H Hnt. nia. }
+  cbn [Z.eqb Pos.eqb andb negb].
+  replace (4 * (34 + lenZ (bodyw f)) - 136) with (4 * lenZ (bodyw f)) by (clear; lia).
+  rewrite Hbody at 1 2.
+  rewrite (walk_first T D b0 rest0 _ _ Hok Hb0 Hr0 Hid); [| |exact Htail].
+  2:{ pose proof (tbw_len_ge _ Hwf0) as Hg. pose proof (lenZ_nonneg (concat (map tbw ts))) as Hn.
+      rewrite Hbody, lenZ_app in F8. clear - F8 Hg Hn. unfold lenZ in *. simpl length in *. lia. }
+  fold es. rewrite Hnd. cbn [negb]. fold (tszZ es).
+  rewrite Hbl.
+  replace (4 * (lenZ (f_times f) * tszZ es) / (4 * tszZ es)) with (lenZ (f_times f)).
+  2:{ rewrite Z.div_mul_cancel_l by (clear - Hpos; lia). rewrite Z.div_mul by (clear - Hpos; lia). reflexivity. }
+  replace (lenZ (f_times f) <=? 0) with false by (symmetry; apply Z.leb_gt; exact Hnt).
+  rewrite <- Hbl. replace (Z.to_nat (lenZ (bodyw f))) with (length (bodyw f)) by (unfold lenZ; rewrite Nat2Z.id; reflexivity).
+  rewrite firstn_all. unfold bodyw at 1.
+  rewrite chunks_concat.
+  2:{ clear - Hpos. lia. }
+  2:{ apply Forall_forall. intros l Hin. apply in_map_iff in Hin as (tb & <- & Hin).
+      rewrite Forall_forall in Hlen. specialize (Hlen tb Hin). unfold lenZ in Hlen. rewrite <- Hlen. rewrite Nat2Z.id. reflexivity. }
+  assert (Hpb : map (parse_time es) (map tbw (f_times f)) = map (map pblock_of) (f_times f)).
+  { rewrite map_map. apply map_ext_in. intros tb Hin. destruct (HallF tb Hin) as [H1 H2].
+    apply (parse_time_tbw T D _ _ H1 H2). }
+  rewrite Hpb.
+  assert (Hsame : forallb (same_ids (hd [] (map (map pblock_of) (f_times f)))) (map (map pblock_of) (f_times f)) = true).
+  { rewrite Et at 1. cbn [map hd]. apply forallb_forall. intros pb Hin. apply in_map_iff in Hin as (tb & <- & Hin).
+    destruct (HallF tb Hin) as [H1 _]. exact (same_ids_meta (b0 :: rest0) tb H1). }
+  rewrite Hsame. cbn [negb].
+  assert (Hlay : existsb (fun q => max_layers <? p_nz (q_hdr q)) (hd [] (map (map pblock_of) (f_times f))) = false).
+  { rewrite Et. cbn [map hd]. exact (layers_ok (b0 :: rest0) Hnz). }
+  rewrite Hlay.
+  assert (Hmk : forallb (forallb (fun q => q_m0 q =? q_m2 q)) (map (map pblock_of) (f_times f)) = true).
+  { apply forallb_forall. intros pb Hin. apply in_map_iff in Hin as (tb & <- & _). apply markers_ok. }
+  rewrite Hmk. cbn [negb].
+  f_equal. unfold view_of, tb0.
+  assert (Hh : parse_hdr (bodyw f) = hdr_of (hd_block (hd [] (f_times f)))).
+  { rewrite Hbody, tbw_cons, (parse_hdr_blockw b0 _ Hb0), Et. reflexivity. }
+  rewrite Hh.
+  assert (Hhd : hd [] (map (map pblock_of) (f_times f)) = map pblock_of (hd [] (f_times f))).
+  { destruct (f_times f); reflexivity. }
+  rewrite Hhd.
+  f_equal.
+  - rewrite map_map. apply map_ext. intros b. cbn [pblock_of q_hdr]. apply var_of_hdr_block. exact Hok.
+  - rewrite map_map. apply map_ext. intros tb. apply tau_of_pblocks.
+  - rewrite map_map. apply map_ext. intros tb. rewrite map_map. reflexivity.
+Qed.
+
+(* ---- the writer model reproduces the spec encoding --------------------------------------------------- *)
+Lemma write_block_blockw T D model tau b0 b : meta_eqb b b0 = true -> wf_block b = true ->
+  b_model b = model -> b_tau b = tau ->
+  write_block model tau (var_of T D b0) (b_data b) = blockw b.
+Proof.
+  intros Hm Hwf <- <-.
+  destruct (meta_eqb_true _ _ Hm) as (_ & Hc & Hi & Hu & Hr & Hx & Hy & Hz & Hst).
+  destruct (wf_block_lens b Hwf) as (_ & _ & _ & _ & _ & _ & _ & _ & _ & Ld).
+  unfold write_block, var_of. cbn [v_cat v_tid v_unit0 v_resv v_nx v_ny v_nz v_start].
+  rewrite <- Hc, <- Hi, <- Hu, <- Hr, <- Hx, <- Hy, <- Hz, <- Hst, <- Ld.
+  unfold blockw, h2_of.
+  change bw_hpad1 with 36. change bw_hepad1 with 36. change bw_hpad2 with 168. change bw_hepad2 with 168.
+  change (bw_skip (4 * lenZ (b_data b))) with (4 * lenZ (b_data b) + 8).
+  repeat rewrite <- app_assoc. reflexivity.
+Qed.
+
+Lemma write_time_tbw T D model tau : forall t0 tb,
+  list_eqb meta_eqb tb t0 = true -> forallb wf_block tb = true ->
+  forallb (fun b => zlist_eqb (b_model b) model && zlist_eqb (b_tau b) tau) tb = true ->
+  write_time model (map (var_of T D) t0) (tau, map b_data tb) = tbw tb.
+Proof.
+  intros t0 tb. revert t0. induction tb as [|b tb IH]; intros [|b' t0] Hm Hwf Hu; simpl in Hm; try discriminate; [reflexivity|].
+  apply andb_true_iff in Hm as [Hm1 Hm2]. simpl in Hwf. apply andb_true_iff in Hwf as [Hb Hbs].
+  simpl in Hu. apply andb_true_iff in Hu as [Hu1 Hu2]. apply andb_true_iff in Hu1 as [Hu1 Hu1'].
+  apply zlist_eqb_eq in Hu1, Hu1'.
+  unfold write_time in *. cbn [fst snd map combine concat] in *.
+  rewrite (write_block_blockw T D model tau b' b Hm1 Hb Hu1 Hu1'), (IH t0 Hm2 Hbs Hu2).
+  unfold tbw. reflexivity.
+Qed.
+
+Lemma combine_map {A B C} (g : A -> B) (h : A -> C) l :
+  combine (map g l) (map h l) = map (fun x => (g x, h x)) l.
+Proof. induction l; simpl; [reflexivity|]. rewrite IHl. reflexivity. Qed.
+
+Theorem write_view T D f : wf T D f = true -> impl_write (view_of T D f) = enc f.
+Proof.
+  intros Hwf.
+  destruct (wf_unpack T D f Hwf) as (b0 & rest0 & ts & Et & Hs & Hmeta & Hmodel & Htau & Hid & Hnd & Hnz).
+  destruct (shape_lens f Hs) as (L1 & L2 & Hb). rewrite forallb_concat in Hb.
+  rewrite (enc_flat f Hs). unfold flat, impl_write, view_of, tb0.
+  cbn [r_ftype r_title r_model r_vars r_taus r_data].
+  change bw_gpad1 with 40. change bw_gepad1 with 40. change bw_gpad2 with 80. change bw_gepad2 with 80.
+  do 5 f_equal. unfold bodyw. rewrite combine_map, map_map. f_equal. apply map_ext_in. intros tb Hin.
+  rewrite forallb_forall in Hmeta, Hb, Htau.
+  rewrite Et. cbn [hd hd_block].
+  apply write_time_tbw; [apply Hmeta; exact Hin | apply Hb; exact Hin | ].
+  - (* every block of tb carries the model of b0 and the time stamp of the first block of tb *)
+    specialize (Hmeta tb Hin). specialize (Htau tb Hin).
+    assert (Hmd : forallb (fun b => zlist_eqb (b_model b) (b_model b0)) tb = true).
+    { clear - Hmeta Hmodel. revert Hmeta Hmodel. generalize (b0 :: rest0) as t0. intros t0. revert t0.
+      induction tb as [|b tb IH]; intros [|b' t0] H1 H2; simpl in *; try discriminate; [reflexivity|].
+      apply andb_true_iff in H1 as [H1 H1']. apply andb_true_iff in H2 as [H2 H2'].
+      destruct (meta_eqb_true _ _ H1) as (Hm & _). rewrite Hm, H2. cbn [andb]. apply (IH t0 H1' H2'). }
+    clear - Hmd Htau. rewrite forallb_forall in *. intros b Hb. rewrite (Hmd b Hb), (Htau b Hb). reflexivity.
+Qed.
+
+(* reading without scaling and writing back reproduces the bytes *)
+Theorem read_write_bytes T D f : wf T D f = true -> tables_ok T D = true -> one_by_two f = false ->
+  exists v, impl_open T D (enc f) (4 * lenZ (enc f)) = Ok v /\ impl_write v = enc f.
+Proof.
+  intros Hwf Hok Hd. exists (view_of T D f). split; [apply read_enc; assumption|apply write_view; assumption].
+Qed.
+
+(* a view is written as the file with these blocks *)
+Definition block_of_var (model tau : list word) (v : var) (d : list word) : block :=
+  {| b_model := model; b_cat := v_cat v; b_tid := v_tid v; b_unit := v_unit0 v; b_tau := tau; b_resv := v_resv v;
+     b_nx := v_nx v; b_ny := v_ny v; b_nz := v_nz v; b_start := v_start v; b_data := d |}.
+Definition file_of (v : view) : bfile :=
+  {| f_ftype := r_ftype v; f_title := r_title v;
+     f_times := map (fun p => map (fun vd => block_of_var (r_model v) (fst p) (fst vd) (snd vd)) (combine (r_vars v) (snd p)))
+                    (combine (r_taus v) (r_data v)) |}.
+
+(* writing any bpch-convention view and reading it back returns it *)
+Theorem write_read T D v :
+  wf T D (file_of v) = true -> tables_ok T D = true -> one_by_two (file_of v) = false ->
+  view_of T D (file_of v) = v ->
+  impl_write v = enc (file_of v)
+  /\ impl_open T D (impl_write v) (4 * lenZ (impl_write v)) = Ok v.
+Proof.
+  intros Hwf Hok Hd Hv.
+  assert (Hw : impl_write v = enc (file_of v)).
+  { rewrite <- Hv at 1. apply write_view. exact Hwf. }
+  split; [exact Hw|]. rewrite Hw. rewrite <- Hv at 3. apply read_enc; assumption.
 Qed.
